@@ -35,6 +35,7 @@ META = {
     "level_note": "Oracle for precedence: docs/tag_reference.md and the constants' own names; the value-semantics helpers "
     "(is_truthy/_eq/_lt/_contains) are trusted as given.",
 }
+META["technique"] += "; sibling comparator unless/if (method by method after renaming); integer-exactness rule on the math filters' int branches"
 
 COUNT_SOURCES = {"render", "render_async", "render_with_context", "render_with_context_async", "write", "render_to_output", "render_to_output_async"}
 EX = "liquid2/builtin/expressions.py"
@@ -362,7 +363,20 @@ def run(prog: Program, res: Result) -> None:  # noqa: PLR0912, PLR0915
 
     res.rule("C01.R13", "the Liquid string form of a value does not depend on where it is printed: every definition of to_liquid_string (the one used by output statements and filters, and the private copy used for `${…}` interpolation in template strings) is the same function after normalisation")
     _stringifier_twins_rule(prog, res)
+    res.rule("C01.R18", "a tag's arguments are evaluated in the scope the tag was written in, all of them before any of its bindings exists: no `<expr>.evaluate[_async](context)` inside the `with context.extend(…)` block that holds the tag's namespace (`{% with a: 2, b: a %}` binds b to the outer a) (= C07.R10 = C10.R5)")
+    from checks.shared import check_arguments_before_bindings
+
+    check_arguments_before_bindings(prog, res, "C01.R18")
+    res.rule("C01.R19", "`unless` is `if` with its first condition negated, and nothing else: every method of UnlessNode / UnlessTag equals its IfNode / IfTag counterpart after renaming and one stripped `not` (elsif / else handling, blank flag, printing, error tokens)")
+    from checks.shared import check_unless_mirrors_if
+
+    check_unless_mirrors_if(prog, res, "C01.R19")
+    res.rule("C01.R17", "integer arithmetic is integer arithmetic: plus, minus, times, modulo and divided_by each return one integer operator applied to the two operands where both are ints (`//` floors, as documented: 'if both are integers, integer division is performed') - not a float or Decimal result converted back (= C20.R9)")
+    from checks.shared import check_integer_exactness
+
+    check_integer_exactness(prog, res, "C01.R17")
     res.rule("C01.R16", "a template string evaluates to text, whatever it interpolates and however many parts it has: every return of TemplateString.evaluate[_async] is `<sep>.join(<stringifier>(part) …)` - no short cut that hands back a part's raw value")
+
     _template_string_is_text_rule(prog, res)
     res.rule("C01.R11", "a filter that searches with str.partition / str.rpartition reads 'found' from the separator slot, never from the head (rpartition) or tail (partition), which is also empty when the occurrence touches that end of the string")
     _partition_presence_rule(prog, res)
